@@ -1459,7 +1459,7 @@ class Interp:
                 return {"list": BUILTIN_TYPES["list"], "tuple": BUILTIN_TYPES["tuple"], "union": TYPING_UNION,
                         "annotated": TYPING_ANNOTATED}.get(t_.kind)
             if nm == "range" and 1 <= len(args) <= 3 and all(isinstance(a, int) and not isinstance(a, bool) for a in args) \
-                    and (len(args) < 3 or args[2] != 0) and len(range(*args)) <= 12:
+                    and (len(args) < 3 or args[2] != 0) and len(range(*args)) <= self.range_cap:
                 return list(range(*args))
             if nm == "partial" and args and nm not in env and isinstance(args[0], (LocalFn, Sym, BoundOp)):
                 return BoundOp("partial", (args[0], list(args[1:]), dict(kwargs)))
@@ -2113,6 +2113,7 @@ def _install():
     Interp.strict_attrs = False
     Interp.fork_sites = []
     Interp.instantiate_classes = False
+    Interp.range_cap = 12          # range(..) longer than this is not unrolled (a rule working on larger concrete sizes raises it)
     Interp.while_cap = 3
     Interp.prelude_len = 0
 
